@@ -61,7 +61,25 @@ type c03Obs struct {
 	anomalies []string
 }
 
-func runC03(c *fw.Case) {
+func runC03(c *fw.Case) { runForkHistory(c, "C03") }
+
+// runForkHistory drives one fork history through the real forkable and a tier1 request. For prop "C03" every monitor
+// decides; for prop "C11" only the size-accounting monitors decide (SizeBytes() vs content after every step, spurious
+// "became too big" failures) and anything else is counted as an observation that belongs to C03.
+func runForkHistory(c *fw.Case, prop string) {
+	viol := func(sig, msg string, w map[string]any) bool {
+		if prop == "C03" {
+			c.Violation("C03/"+sig, msg, w)
+			return true
+		}
+		if strings.HasPrefix(sig, "store-size/") || (strings.HasPrefix(sig, "request-failed/") && strings.Contains(msg, "too big")) {
+			c.Violation(prop+"/pipeline/"+sig, msg, w)
+			return true
+		}
+		c.Count("anomalies_of_other_properties_observed", 1)
+		c.Logf("OBSERVED (not decided by %s) %s: %s", prop, sig, msg)
+		return false
+	}
 	s := newScen(c, gen.PkgOpts{MaxMods: 7, NoIndex: c.R.Intn(2) == 0, ForceDelete: c.R.Intn(2) == 0})
 	defer s.close()
 	outs := s.outputs()
@@ -123,7 +141,7 @@ func runC03(c *fw.Case) {
 		}
 		ref, err := refFor(topNum, topID)
 		if err != nil {
-			c.Violation("C03/ref-failed/"+fw.NormalizeMsg(err.Error()), "reference run failed: "+err.Error(), wit(nil))
+			viol("ref-failed/"+fw.NormalizeMsg(err.Error()), "reference run failed: "+err.Error(), wit(nil))
 			storeViolated = true
 			return
 		}
@@ -139,9 +157,11 @@ func runC03(c *fw.Case) {
 			pair := pairOf(name)
 			got, err := sim.TypedStore(pair, snap)
 			if err != nil {
-				c.Violation("C03/store-untyped", fmt.Sprintf("after %s: store %s: %v", after, name, err), wit(nil))
-				storeViolated = true
-				return
+				if viol("store-untyped", fmt.Sprintf("after %s: store %s: %v", after, name, err), wit(nil)) {
+					storeViolated = true
+					return
+				}
+				continue
 			}
 			want, _ := sim.TypedStore(pair, ref.Stores[name])
 			if d := sim.DiffTyped(got, want); d != "" {
@@ -149,16 +169,17 @@ func runC03(c *fw.Case) {
 				if strings.HasPrefix(after, "undo") {
 					kind = "after-undo"
 				}
-				c.Violation("C03/store-content/"+kind, fmt.Sprintf("after %s (applied chain ends at %d %s): store %s (%s) differs from a fork-free execution of that chain (got vs reference): %s", after, topNum, topID, name, pair, d), wit(nil))
-				storeViolated = true
-				return
+				if viol("store-content/"+kind, fmt.Sprintf("after %s (applied chain ends at %d %s): store %s (%s) differs from a fork-free execution of that chain (got vs reference): %s", after, topNum, topID, name, pair, d), wit(nil)) {
+					storeViolated = true
+					return
+				}
 			}
 			if real != snap.Size {
 				kind := "after-new"
 				if strings.HasPrefix(after, "undo") {
 					kind = "after-undo"
 				}
-				c.Violation("C03/store-size/"+kind, fmt.Sprintf("after %s: store %s reports SizeBytes()=%d but its content totals %d", after, name, snap.Size, real), wit(nil))
+				viol("store-size/"+kind, fmt.Sprintf("after %s: store %s reports SizeBytes()=%d but its content totals %d", after, name, snap.Size, real), wit(nil))
 				storeViolated = true
 				return
 			}
@@ -270,7 +291,7 @@ func runC03(c *fw.Case) {
 	}
 	c.Count("steps", int64(len(obs.steps)))
 	if res.Stuck {
-		c.Violation("C03/liveness/request-stuck", "request made no progress for 45 s with no job in flight", wit(nil))
+		viol("liveness/request-stuck", "request made no progress for 45 s with no job in flight", wit(nil))
 		return
 	}
 	if res.Err != nil {
@@ -278,14 +299,14 @@ func runC03(c *fw.Case) {
 			c.Inconclusive("harness feed: " + res.Err.Error())
 			return
 		}
-		c.Violation("C03/request-failed/"+fw.NormalizeMsg(res.Err.Error()), "request failed: "+res.Err.Error(), wit(nil))
+		viol("request-failed/"+fw.NormalizeMsg(res.Err.Error()), "request failed: "+res.Err.Error(), wit(nil))
 		return
 	}
 	if c.Violated() {
 		return
 	}
 	for _, a := range obs.anomalies {
-		c.Violation("C03/steps/undo-not-top-of-chain", "the fork resolver emitted "+a, wit(nil))
+		viol("steps/undo-not-top-of-chain", "the fork resolver emitted "+a, wit(nil))
 		return
 	}
 
@@ -323,7 +344,7 @@ func runC03(c *fw.Case) {
 			}
 			for _, h := range client {
 				if h.num >= d.Clock.Number {
-					c.Violation("C03/client/two-blocks-at-height-without-undo", fmt.Sprintf("data message for block %d %s while the client still holds block %d %s", d.Clock.Number, d.Clock.Id, h.num, h.id), wit(nil))
+					viol("client/two-blocks-at-height-without-undo", fmt.Sprintf("data message for block %d %s while the client still holds block %d %s", d.Clock.Number, d.Clock.Id, h.num, h.id), wit(nil))
 					return
 				}
 			}
@@ -335,7 +356,7 @@ func runC03(c *fw.Case) {
 			deltasOf[d.Clock.Id] = all
 			cur, err := bstream.CursorFromOpaque(d.Cursor)
 			if err != nil || cur.Block.ID() != d.Clock.Id || cur.Block.Num() != d.Clock.Number {
-				c.Violation("C03/client/cursor-wrong-block", fmt.Sprintf("block %d %s carries cursor %v (%v)", d.Clock.Number, d.Clock.Id, cur, err), wit(nil))
+				viol("client/cursor-wrong-block", fmt.Sprintf("block %d %s carries cursor %v (%v)", d.Clock.Number, d.Clock.Id, cur, err), wit(nil))
 				return
 			}
 		case *pbsubstreamsrpc.Response_BlockUndoSignal:
@@ -358,12 +379,12 @@ func runC03(c *fw.Case) {
 				}
 			}
 			if !ok {
-				c.Violation("C03/client/undo-designates-unknown-block", fmt.Sprintf("undo signal with last valid block %d %s which the client does not hold (client holds %v)", lv.Number, lv.Id, heldIDs(client, func(h held) string { return h.id })), wit(nil))
+				viol("client/undo-designates-unknown-block", fmt.Sprintf("undo signal with last valid block %d %s which the client does not hold (client holds %v)", lv.Number, lv.Id, heldIDs(client, func(h held) string { return h.id })), wit(nil))
 				return
 			}
 			cur, err := bstream.CursorFromOpaque(u.LastValidCursor)
 			if err != nil || cur.Block.ID() != lv.Id || cur.Block.Num() != lv.Number {
-				c.Violation("C03/client/undo-cursor-wrong-block", fmt.Sprintf("undo signal for last valid block %d %s carries cursor %v (%v)", lv.Number, lv.Id, cur, err), wit(nil))
+				viol("client/undo-cursor-wrong-block", fmt.Sprintf("undo signal for last valid block %d %s carries cursor %v (%v)", lv.Number, lv.Id, cur, err), wit(nil))
 				return
 			}
 			kept := client[:0:0]
@@ -388,7 +409,7 @@ func runC03(c *fw.Case) {
 	}
 	ref, err := refFor(topNum, finalTop)
 	if err != nil {
-		c.Violation("C03/ref-failed/"+fw.NormalizeMsg(err.Error()), "reference run failed: "+err.Error(), wit(nil))
+		viol("ref-failed/"+fw.NormalizeMsg(err.Error()), "reference run failed: "+err.Error(), wit(nil))
 		return
 	}
 	var chain []string
@@ -407,7 +428,7 @@ func runC03(c *fw.Case) {
 		}
 		if ci < len(client) && client[ci].id == id {
 			if !bytes.Equal(client[ci].payload, ref.Payload[id]) {
-				c.Violation("C03/client/final-chain-differs", fmt.Sprintf("client holds %s with payload %q, the canonical chain's reference payload is %q", id, client[ci].payload, ref.Payload[id]), wit(nil))
+				viol("client/final-chain-differs", fmt.Sprintf("client holds %s with payload %q, the canonical chain's reference payload is %q", id, client[ci].payload, ref.Payload[id]), wit(nil))
 				return
 			}
 			ci++
@@ -416,11 +437,11 @@ func runC03(c *fw.Case) {
 		if prodMode && sess != nil && num < sess.LinearHandoffBlock && len(ref.Payload[id]) == 0 {
 			continue
 		}
-		c.Violation("C03/client/final-chain-differs", fmt.Sprintf("client ends with blocks %v, canonical chain is %v: block %s is missing or out of place", heldIDs(client, func(h held) string { return h.id }), chain, id), wit(nil))
+		viol("client/final-chain-differs", fmt.Sprintf("client ends with blocks %v, canonical chain is %v: block %s is missing or out of place", heldIDs(client, func(h held) string { return h.id }), chain, id), wit(nil))
 		return
 	}
 	if ci != len(client) {
-		c.Violation("C03/client/final-chain-differs", fmt.Sprintf("client ends with blocks %v which are not all on the canonical chain %v", heldIDs(client, func(h held) string { return h.id }), chain), wit(nil))
+		viol("client/final-chain-differs", fmt.Sprintf("client ends with blocks %v which are not all on the canonical chain %v", heldIDs(client, func(h held) string { return h.id }), chain), wit(nil))
 		return
 	}
 	c.Count("client_blocks_compared", int64(len(chain)))
